@@ -253,3 +253,27 @@ func SubscribeRetry(rng *wh.Rng, thorough bool) []Scenario {
 		Isolate: true, Tag: "subfail/close", Prog: prog("add:0", "run", "wrun", "add:1", "rh", "rh", "wst:1", "emit:1:1", "whe:1", "close:3", "wclose", "wrr", "wacc")})
 	return out
 }
+
+// CloseFails: the (decorated) subscriber's Close returns an error without ending the subscription; the router must still end
+// the handler through its context - also for handlers that were started by RunHandlers with the caller's context, which
+// Run's own cancel does not reach. Isolated: if the handler is not ended its goroutines stay behind.
+func CloseFails(rng *wh.Rng, thorough bool) []Scenario {
+	var out []Scenario
+	out = append(out, Scenario{Handlers: []HandlerSpec{{}, {}}, FailSubDecorator: true, Isolate: true, Seed: rng.Next(), Tag: "closefail/late",
+		Prog: prog("add:0", "run", "wrun", "add:1", "rh", "wst:1", "emit:1:1", "emit:0:1", "whe:2", "close:1", "wclose", "wrr", "wacc")})
+	out = append(out, Scenario{Handlers: []HandlerSpec{{}, {}}, FailSubDecorator: true, Isolate: true, Seed: rng.Next(), Tag: "closefail/run",
+		Prog: prog("add:0", "add:1", "run", "wrun", "emit:1:1", "whe:1", "close:2", "wclose", "wrr", "wacc")})
+	return out
+}
+
+// NegativeTimeout: CloseTimeout below zero (legal: Validate accepts it, only the zero value is defaulted). A handler that is
+// still running has outlived it by definition: Close must answer the error at once, never hang; Run must return.
+func NegativeTimeout(rng *wh.Rng, thorough bool) []Scenario {
+	var out []Scenario
+	for _, n := range []int{1, 3} {
+		out = append(out, Scenario{Handlers: []HandlerSpec{{GateAt: 1}}, CloseTimeoutMs: -1, WaitMs: 8000, Seed: rng.Next(), Conf: n == 1,
+			Tag:  fmt.Sprintf("negtimeout/%d", n),
+			Prog: prog("add:0", "run", "wrun", "emit:0:1", "whs:1", fmt.Sprintf("close:%d", n), "wclose", "wrr", "gate", "whe:1")})
+	}
+	return out
+}
